@@ -267,8 +267,28 @@ class _Progress:
         if not tg or not any(self._cn(t, m) in self.cursors for t in tg):
             return False
         if isinstance(x.value, ast.Name):
-            return x.value.id in self._saved_locals(m) or x.value.id in (set(m.params()) - {"self"})
+            if x.value.id in self._saved_locals(m):
+                return True
+            return x.value.id in (set(m.params()) - {"self"}) and self._called_with_saved_cursor(m)
         return False
+
+    def _called_with_saved_cursor(self, m: Func) -> bool:
+        """Every call of method m inside the class hands it a cursor copy the caller saved (`self._reset(mark)`);
+        a helper that is given computed offsets (`self._skip_to(end)`) jumps, it does not restore."""
+        cache = self.__dict__.setdefault("_cwsc_cache", {})
+        if m.name in cache:
+            return cache[m.name]
+        cache[m.name] = False  # while computing (recursion through _saved_locals -> _savers is harmless)
+        sites = []
+        for g in self.methods.values():
+            if isinstance(g.node, ast.Lambda):
+                continue
+            for c in g.own_nodes():
+                if isinstance(c, ast.Call) and self._self_method(c) == m.name:
+                    sites.append((g, c))
+        ok = bool(sites) and all(c.args and isinstance(c.args[0], ast.Name) and c.args[0].id in self._saved_locals(g) for g, c in sites)
+        cache[m.name] = ok
+        return ok
 
     def _jump(self, x: ast.AST, m: Func) -> Optional[str]:
         """`self.pos = E` that is neither a reset of the entry point nor a restore of a saved cursor:
